@@ -57,14 +57,34 @@ def line_vectors(ver, prefix, m, metric):
     return out
 
 
-def check_line(P, ver, prefix, m, metric):
+# Unrelated vectors scored BETWEEN the points of a line (pattern 1: the lowering one before the more severe
+# point, the neutral one before the next; pattern 2: the other way round).  "Never lowers a score" is about two
+# scores a user computes in one process, whatever else was scored in between.
+_LOW = {"2": "AV:L/AC:H/Au:M/C:N/I:N/A:P/E:U/RL:OF/RC:UC/CDP:N/TD:L/CR:L/IR:L/AR:L",
+        "3": "AV:P/AC:H/PR:H/UI:R/S:U/C:N/I:N/A:L/E:U/RL:O/RC:U/CR:L/IR:L/AR:L/MAV:P/MAC:H/MPR:H/MUI:R/MS:U/MC:N/MI:N/MA:L",
+        "4": "CVSS:4.0/AV:P/AC:H/AT:P/PR:H/UI:A/VC:N/VI:N/VA:L/SC:N/SI:N/SA:N/E:U/CR:L/IR:L/AR:L/MAV:P/MAC:H/MAT:P/MPR:H/MUI:A/"
+             "MVC:N/MVI:N/MVA:L/MSC:N/MSI:N/MSA:N"}
+_HIGH = {"2": "AV:N/AC:L/Au:N/C:C/I:C/A:C/E:H/RL:U/RC:C/CDP:H/TD:H/CR:H/IR:H/AR:H",
+         "3": "AV:N/AC:L/PR:N/UI:N/S:C/C:H/I:H/A:H/E:H/RL:U/RC:C/CR:H/IR:H/AR:H/MAV:N/MAC:L/MPR:N/MUI:N/MS:C/MC:H/MI:H/MA:H",
+         "4": "CVSS:4.0/AV:N/AC:L/AT:N/PR:N/UI:N/VC:H/VI:H/VA:H/SC:H/SI:H/SA:H/E:A/CR:H/IR:H/AR:H/MAV:N/MAC:L/MAT:N/MPR:N/MUI:N/"
+              "MVC:H/MVI:H/MVA:H/MSC:H/MSI:S/MSA:S"}
+
+
+def disturber(ver, prefix, pattern, i):
+    tab = _LOW if (pattern + i) % 2 else _HIGH
+    return (prefix + tab[ver]) if ver == "3" else tab[ver]
+
+
+def check_line(P, ver, prefix, m, metric, disturb=0):
     """m: metrics as written (must not define an override of `metric`'s line)."""
     L = lib()
     minor = int(prefix[7]) if ver == "3" else None
     scope = slots_in_scope(ver, minor, metric)
     pts = []
-    for v, s in line_vectors(ver, prefix, m, metric):
+    for i, (v, s) in enumerate(line_vectors(ver, prefix, m, metric)):
         P.evaluations += 1
+        if disturb:
+            obs.call(lambda: L.CLS[ver](disturber(ver, prefix, disturb, i)).scores())
         ok, o = obs.call(L.CLS[ver], s)
         if not ok:
             P.violation("construct", "C14:exception:" + obs.exc_name(o), {"ver": ver, "vector": s}, error=repr(o))
@@ -85,8 +105,11 @@ def check_line(P, ver, prefix, m, metric):
                 P.stratum("strict-step")
             if a[i] < b[i]:
                 tag = ver if ver != "3" else "3.%d" % minor
-                P.violation("monotone-line", "C14:v%s:%s-score-not-monotone-in-%s" % (tag, SLOTS[i], metric),
-                            {"pair": [s1, s2], "ver": ver, "metric": metric},
+                case = {"pair": [s1, s2], "ver": ver, "metric": metric}
+                if disturb:
+                    j = [x[1] for x in pts].index(s1)
+                    case["scored_before_each"] = [disturber(ver, prefix, disturb, j), disturber(ver, prefix, disturb, j + 1)]
+                P.violation("monotone-line", "C14:v%s:%s-score-not-monotone-in-%s" % (tag, SLOTS[i], metric), case,
                             more_severe={"vector": s1, "scores": repr(a)}, less_severe={"vector": s2, "scores": repr(b)})
 
 
@@ -95,7 +118,13 @@ def check_case(P, case):
     L = lib()
     ver = case["ver"]
     s1, s2 = case["pair"]
-    a, b = L.CLS[ver](s1).scores(), L.CLS[ver](s2).scores()
+    pre = case.get("scored_before_each") or [None, None]
+    if pre[0]:
+        L.CLS[ver](pre[0]).scores()
+    a = L.CLS[ver](s1).scores()
+    if pre[1]:
+        L.CLS[ver](pre[1]).scores()
+    b = L.CLS[ver](s2).scores()
     minor = int(s1[7]) if ver == "3" else None
     P.evaluations += 2
     P.ev("monotone-line")
@@ -133,7 +162,7 @@ def shard_random(P, ver, idx, n, seed):
         metric = mets[(j + idx) % len(mets)]
         m = prepare(ver, m, metric)
         P.dist((ver, prefix, metric, tuple(sorted((k, v) for k, v in m.items() if k != metric))))
-        check_line(P, ver, prefix, m, metric)
+        check_line(P, ver, prefix, m, metric, disturb=j % 3)
         if j % 997 == 0:
             P.sample({"ver": ver, "metric": metric, "line": [s for _, s in line_vectors(ver, prefix, m, metric)]})
 
@@ -146,12 +175,19 @@ def shard_macro_lines(P, eq1l, eq2l, nrandom, seed):
     from ..spec import ref4
     rng = random.Random("C14-mv-%s-%s-%s" % (seed, eq1l, eq2l))
     gs = ("eq1", "eq2", "eq36", "eq4")
+    nline = 0
     for l36 in ref4.MEMBERS["eq36"]:
         for l4 in ref4.MEMBERS["eq4"]:
             for e in "APU":
                 lv = {"eq1": (eq1l,), "eq2": (eq2l,), "eq36": l36, "eq4": l4}
-                picks = [tuple(ref4.LEVELS[g][lv[g]][0][0] for g in gs),
-                         tuple(max(ref4.MEMBERS[g][lv[g]], key=sum) for g in gs)]
+                # the 16 corners of the macrovector: per class its (first) highest-severity vector or its lowest member
+                hi = {g: ref4.LEVELS[g][lv[g]][0][0] for g in gs}
+                lo = {g: max(ref4.MEMBERS[g][lv[g]], key=sum) for g in gs}
+                picks = []
+                for choice in itertools.product((hi, lo), repeat=len(gs)):
+                    pk = tuple(c[g] for c, g in zip(choice, gs))
+                    if pk not in picks:
+                        picks.append(pk)
                 for _ in range(nrandom):
                     picks.append(tuple(rng.choice(ref4.MEMBERS[g][lv[g]]) for g in gs))
                 for pk in picks:
@@ -163,7 +199,8 @@ def shard_macro_lines(P, eq1l, eq2l, nrandom, seed):
                     for metric in T.SEVERITY_ORDER["4"]:
                         mm = prepare("4", m, metric)
                         P.dist(("4mv", metric, tuple(sorted((k, v) for k, v in mm.items() if k != metric))))
-                        check_line(P, "4", "CVSS:4.0/", mm, metric)
+                        nline += 1
+                        check_line(P, "4", "CVSS:4.0/", mm, metric, disturb=nline % 3)
 
 
 # ---- thorough: recorded tables + offline numpy checker -----------------------
